@@ -128,7 +128,8 @@ class ClassificationLookupVlr(BaseKnownVLR):
     def record_data_bytes(self) -> bytes:
         def lookup_converter(lookup_dict):
             for class_id, description in lookup_dict.items():
-                description_bytes = description.encode("ascii")
+                # same codec as the one used when parsing
+                description_bytes = description.encode("utf-8")
                 if len(description_bytes) > 15:
                     raise ValueError(
                         "decription ({}) is to long ({} bytes), it must not exceed 15 bytes when encoded".format(
